@@ -45,6 +45,7 @@ Definition prod_facts (c : cfg) (s : state) : Prop :=
   | PLoop => nb s = ChOpen
   | PSend BNormal => nb s = ChOpen /\ c_kind c <> KErr
   | PSend BErr => nb s = ChOpen /\ c_kind c = KErr
+  | PClosing => nb s = ChOpen /\ c_kind c <> KErr /\ dev s = false /\ adapter s = false
   | PDone => match c_kind c with
              | KErr => nb s = ChOpen /\ core_exiting (core s)
              | _ => nb s = ChClosed /\ dev s = false /\ adapter s = false
@@ -158,7 +159,7 @@ Lemma inv_step_prod n c s ch s' : Inv n c s -> step c s (TProd ch) = Some s' -> 
 Proof.
   intros [Hc Ht Hl Hm Hi Hd Ha Hp] Hs. open_state s. destruct c as [k f w fx fr]; destruct k, fx.
   all: unfold step in Hs; cbn in Hc; subst crashed0; cbn [crashed] in Hs;
-    unfold step_prod, close_prod, release_all in Hs; cbn in *.
+    unfold step_prod, begin_close, finish_close, release_all in Hs; cbn in *.
   all: split_starter starter0; cbn in *; inv_hyps; subst; try discriminate Hs.
   all: unfold core_facts, sst_facts, prod_facts, core_exiting in *; cbn in *.
   all: destruct ch; destr_match Hs; inv_hyps; subst; cbn in *; try contradiction; try discriminate.
